@@ -43,6 +43,21 @@ func c10Scenarios(tier string) []*hist.Scenario {
 			Env: []string{"compactF"}, E: 1, Cfg: never,
 		})
 	}
+	// stored snapshots of the old generation: snapshot interval 1 (a snapshot is
+	// stored at every push), a forced compaction, a fresh (late) client that
+	// pushes until the new log is as long as the old one was, the snapshot cache
+	// evicted - the rebuild from the database must not find anything of the old
+	// generation (20.7k histories per kind; seeded change C10-4)
+	for _, f := range fams[:5] {
+		if tier == "quick" && f.name != "arr" {
+			continue
+		}
+		out = append(out, &hist.Scenario{
+			Name: fmt.Sprintf("c10/%s/%s/stored-snapshots/N1L1K2Y2E2", f.name, f.ops[0]),
+			N:    1, Late: 1, Init: f.init, Alphabet: f.ops[:1], K: 2, Y: 2,
+			Env: []string{"compactF", "evict"}, E: 2, Cfg: hist.Config{Threshold: hist.Big, Interval: 1},
+		})
+	}
 	// Upper bounds before no-effect pruning: K2Y2E1D1 12.8k histories, K1Y1E2D2
 	// 36.7k, K1Y2E2D2 260k, K2Y2E1D2 165k, K2Y2E2D2 1.1M (count10_test.go).
 	for _, f := range fams {
